@@ -10,6 +10,7 @@ EXTENDS Store, Json, SequencesExt
 CONSTANTS MaxStmts, MaxRows, MaxFlush, MaxCrash, MaxEvict, EmitOn,
           EmitSel,     \* which completed paths are printed: "all", "crash", "crash-wal", "crash-flush", "error"
           BadMode,     \* which invalid rows INSERT/UPDATE may carry: "none", "type-size", "count-range", "all"
+          Wheres,      \* WHERE clauses of UPDATE / DELETE (see Store!Match): 0, values, 100 + k for `a >= k`
           DmlTables,   \* tables that INSERT/UPDATE/DELETE address (a subset of Tables, to focus a configuration)
           Ops          \* statement kinds explored: subset of {"create", "insert", "update", "delete"}
 
@@ -23,8 +24,10 @@ BadVals == CASE BadMode = "none" -> {}
 mcVars == <<disk, dhdr, cache, mhdr, walD, torn, walU, pc, abs, pend, cands, taint, scope, out, cnt, hist>>
 
 RowSeqs == UNION {[1..n -> Vals \cup BadVals] : n \in 1..MaxRows}
-\* at most one invalid row per statement (enough for "the k-th row is the invalid one, for every k")
-OneBad(rows) == Cardinality({i \in 1..Len(rows) : rows[i] < 0}) <= 1
+\* at most one invalid row per statement (enough for "the k-th row is the invalid one, for every k");
+\* a row with a NULL INT column (value 9) can only be written as a one-row INSERT with a shorter column list
+OneBad(rows) == /\ Cardinality({i \in 1..Len(rows) : rows[i] < 0}) <= 1
+                /\ (\E i \in 1..Len(rows) : rows[i] = 9) => Len(rows) = 1
 
 H(step) == hist' = Append(hist, step)
 Bump(f) == cnt' = [cnt EXCEPT ![f] = @ + 1]
@@ -38,9 +41,9 @@ MCNext ==
   \/ /\ StmtOK /\ "create" \in Ops /\ \E t \in Tables : CreateStmt(t) /\ H([a |-> "create", t |-> t]) /\ Bump("st")
   \/ /\ StmtOK /\ "insert" \in Ops /\ \E t \in DmlTables, rows \in RowSeqs :
           OneBad(rows) /\ InsertStmt(t, rows) /\ H([a |-> "insert", t |-> t, rows |-> rows]) /\ Bump("st")
-  \/ /\ StmtOK /\ "update" \in Ops /\ \E t \in DmlTables, w \in Vals \cup {0}, v \in Vals \cup (BadVals \cap {-1}) :
+  \/ /\ StmtOK /\ "update" \in Ops /\ \E t \in DmlTables, w \in Wheres, v \in (Vals \ {9}) \cup (BadVals \cap {-1, -2}) :
           UpdateStmt(t, w, v) /\ H([a |-> "update", t |-> t, w |-> w, v |-> v]) /\ Bump("st")
-  \/ /\ StmtOK /\ "delete" \in Ops /\ \E t \in DmlTables, w \in Vals \cup {0} :
+  \/ /\ StmtOK /\ "delete" \in Ops /\ \E t \in DmlTables, w \in Wheres :
           DeleteStmt(t, w) /\ H([a |-> "delete", t |-> t, w |-> w]) /\ Bump("st")
   \/ /\ cnt.fl < MaxFlush /\ taint = {} /\ (cache # <<>> \/ dhdr # mhdr)
      /\ FlushBegin /\ H([a |-> "flush"]) /\ Bump("fl")
